@@ -85,7 +85,7 @@ theorem escapeWith_refsOnly {refs : List Str} {t : List (Char × Str)} (ht : tab
         decide_eq_false_iff_not, decide_eq_true_eq] at hrow
       obtain ⟨⟨hd, htl⟩, hmem⟩ := hrow
       subst hd
-      simp only [List.cons_append, refsOnly, if_true, Bool.and_eq_true]
+      simp only [List.cons_append, refsOnly, if_true]
       refine Eq.trans ?_ (refsOnly_append_noAmp refs tl rest htl)
       have : (refs.any fun r => r.isPrefixOf ('&' :: (tl ++ rest))) = true := by
         rw [List.any_eq_true]
